@@ -41,10 +41,12 @@ type c16Case struct {
 	Clients int       `json:"clients"`
 	Calls   []c16Call `json:"calls"`
 	Cut     *Fault    `json:"cut,omitempty"` // Conn = index of the client whose link is cut
+	// Detach: the server's request contexts are not cancelled when a connection goes away (middleware in front of it)
+	Detach bool `json:"detach,omitempty"`
 }
 
 func runC16(c c16Case) (*Violation, string) {
-	rig, err := NewRig(RigOpts{Reverse: c.Mode != "nooption", BackoffMin: 5 * time.Millisecond, BackoffMax: 20 * time.Millisecond})
+	rig, err := NewRig(RigOpts{DetachCtx: c.Detach, Reverse: c.Mode != "nooption", BackoffMin: 5 * time.Millisecond, BackoffMax: 20 * time.Millisecond})
 	if err != nil {
 		return nil, "rig"
 	}
@@ -330,6 +332,9 @@ func c16NT(c c16Case) (bool, []string) {
 			cl = append(cl, "burst_into_stalled_link")
 		}
 	}
+	if c.Detach {
+		cl = append(cl, "request_ctx_outlives_connection")
+	}
 	if c.Cut != nil {
 		cl = append(cl, "link_cut", "cut_"+c.Cut.Dir+"_"+c.Cut.Pos)
 	}
@@ -339,13 +344,13 @@ func c16NT(c c16Case) (bool, []string) {
 	return c.Clients >= 2 || c.Cut != nil, cl
 }
 
-const c16Rule = "1-5 clients connected at once, each with a reverse handler returning its own identity; 1-8 concurrent forward calls, each making 0-3 reverse calls while pending, optionally one through a field tagged rpc_method that resolves via a client-side handler alias together with one into a second client-side handler registered under another namespace (the two WithClientHandler options come in either order; every third client registers just one handler), optionally one into a client-side handler that blocks, optionally all of them through retry-tagged fields of the reverse client struct; link of one client cut (FIN/RST) at a drawn frame and byte position of the reverse exchange; modes {ws, http, server without WithReverseClient}; servers with a custom method-name formatter and the reverse-client option listed before or after it, the client-side handler reachable under the formatted name only. Non-trivial = >=2 clients connected, or a link cut; distinct by descriptor hash"
+const c16Rule = "1-5 clients connected at once, each with a reverse handler returning its own identity; 1-8 concurrent forward calls, each making 0-3 reverse calls while pending, optionally one through a field tagged rpc_method that resolves via a client-side handler alias together with one into a second client-side handler registered under another namespace (the two WithClientHandler options come in either order; every third client registers just one handler), optionally one into a client-side handler that blocks, optionally all of them through retry-tagged fields of the reverse client struct; link of one client cut (FIN/RST) at a drawn frame and byte position of the reverse exchange; modes {ws, http, server without WithReverseClient}; servers behind a middleware whose request contexts outlive the connection; servers with a custom method-name formatter and the reverse-client option listed before or after it, the client-side handler reachable under the formatted name only. Non-trivial = >=2 clients connected, or a link cut; distinct by descriptor hash"
 
 func TestC16(t *testing.T) {
 	rec := NewRec("C16", c16Rule)
 	defer rec.Finish(t)
 	rec.EnableJournal()
-	rec.RequireClass("server_formatter_custom_sep", "retry_tagged_reverse_call_at_loss", "forward_notification", "burst_into_stalled_link", "mode_ws", "mode_http", "mode_nooption", "clients_3", "alias_and_tag", "slow_reverse", "link_cut", "several_reverse_calls")
+	rec.RequireClass("request_ctx_outlives_connection", "server_formatter_custom_sep", "retry_tagged_reverse_call_at_loss", "forward_notification", "burst_into_stalled_link", "mode_ws", "mode_http", "mode_nooption", "clients_3", "alias_and_tag", "slow_reverse", "link_cut", "several_reverse_calls")
 	run := func(ft failer, c c16Case) {
 		nt, cl := c16NT(c)
 		rec.Run(ft, c, nt, cl, func() *Violation {
@@ -389,6 +394,8 @@ func TestC16(t *testing.T) {
 			}
 			run(t, c16Case{Mode: "ws", Clients: 2, Calls: []c16Call{{Client: 0, Slow: true}, {Client: 1, Reverse: 1}, {Client: 0, Slow: true, Reverse: 1}},
 				Cut: &Fault{Conn: 0, Dir: "s2c", Frame: 99, Pos: "before", Kind: kind}})
+			run(t, c16Case{Mode: "ws", Clients: 2, Detach: true, Calls: []c16Call{{Client: 0, Slow: true}, {Client: 1, Reverse: 1}, {Client: 0, Slow: true, Reverse: 2}},
+				Cut: &Fault{Conn: 0, Dir: "s2c", Frame: 99, Pos: "before", Kind: kind}})
 			// the same through retry-tagged fields of the reverse client: nothing to retry against once the client is gone
 			run(t, c16Case{Mode: "ws", Clients: 2, Calls: []c16Call{{Client: 0, Slow: true, Retry: true}, {Client: 1, Reverse: 2, Retry: true}, {Client: 0, Slow: true, Reverse: 1, Retry: true}},
 				Cut: &Fault{Conn: 0, Dir: "s2c", Frame: 99, Pos: "before", Kind: kind}})
@@ -414,6 +421,7 @@ func TestC16(t *testing.T) {
 			}
 			c.Calls = append(c.Calls, cc)
 		}
+		c.Detach = rapid.IntRange(0, 2).Draw(rt, "detach") == 0
 		if cut {
 			c.Cut = &Fault{Conn: rapid.IntRange(0, c.Clients-1).Draw(rt, "cutconn"), Dir: rapid.SampledFrom(faultDirs).Draw(rt, "cutdir"), Frame: rapid.IntRange(0, 6).Draw(rt, "cutframe"),
 				Pos: rapid.SampledFrom(faultPos).Draw(rt, "cutpos"), Kind: rapid.SampledFrom([]string{"fin", "rst"}).Draw(rt, "cutkind")}
